@@ -12,6 +12,7 @@ require (
 	github.com/fako1024/gotools/link v0.0.0-20260511092824-089d64760c34
 	github.com/fako1024/slimcap v1.0.12
 	github.com/json-iterator/go v1.1.12
+	golang.org/x/sys v0.45.0
 	pgregory.net/rapid v1.3.0
 )
 
@@ -64,7 +65,6 @@ require (
 	go.yaml.in/yaml/v2 v2.4.4 // indirect
 	golang.org/x/crypto v0.52.0 // indirect
 	golang.org/x/net v0.55.0 // indirect
-	golang.org/x/sys v0.45.0 // indirect
 	golang.org/x/text v0.37.0 // indirect
 	golang.org/x/time v0.15.0 // indirect
 	google.golang.org/genproto/googleapis/api v0.0.0-20260504160031-60b97b32f348 // indirect
